@@ -2,7 +2,7 @@
     This file holds only the exported statements. *)
 From Coq Require Import List Bool Arith ZArith.
 Import ListNotations.
-Require Import Nib.C06.Model Nib.C06.Spec Nib.C06.Proofs.
+Require Import Nib.C06.Model Nib.C06.Spec Nib.C06.Proofs Nib.C06.ProofsExact.
 Local Open Scope Z_scope.
 
 (** After EVERY transaction of EVERY history (any sequence of funding, ERC20 deployments of any
@@ -22,6 +22,24 @@ Theorem C06_backing_invariant_state : forall (ops : list op) (m : mapping),
   (m_coin m = false -> supply (run init ops) (m_den m) <= ebal (run init ops) (m_tok m) Module).
 Proof. exact backing_invariant_state. Qed.
 Print Assumptions C06_backing_invariant_state.
+
+(** Equality: in every history in which nobody burns ERC20 directly, nobody hands tokens or coins to the
+    module outside a conversion (no transfer / conversion with the module as recipient, no funding of the
+    module) and no deployed token pays its transfer fee to the module, every mapping is backed EXACTLY
+    after every transaction.  Fee-on-transfer tokens are allowed: the bridge credits what it measured. *)
+Theorem C06_exact_backing : forall ops : list op, forallb gift_free ops = true ->
+  forall m, In m (reg (run init ops)) ->
+    (m_coin m = true -> esup (run init ops) (m_tok m) = bank (run init ops) Module (m_den m)) /\
+    (m_coin m = false -> supply (run init ops) (m_den m) = ebal (run init ops) (m_tok m) Module).
+Proof. exact exact_backing. Qed.
+Print Assumptions C06_exact_backing.
+
+(** … and the hypothesis is needed: after a direct burn the escrow exceeds the ERC20 supply. *)
+Theorem C06_exact_backing_needs_hypothesis :
+  exists ops m, In m (reg (run init ops)) /\ m_coin m = true /\
+    esup (run init ops) (m_tok m) < bank (run init ops) Module (m_den m).
+Proof. exact exact_needs_gift_free. Qed.
+Print Assumptions C06_exact_backing_needs_hypothesis.
 
 (** Each ERC20 address and each bank denom belongs to at most one mapping … *)
 Theorem C06_unique_mapping : forall ops : list op,
